@@ -12,30 +12,30 @@ import (
 
 // XZBlock is everything the reference parser learned about one block.
 type XZBlock struct {
-	HdrOff     int   `json:"hdrOff"`
-	HdrLen     int   `json:"hdrLen"`
-	SizeByte   int   `json:"sizeByte"`
-	Flags      int   `json:"flags"`
-	CSizeField int64 `json:"csizeField"` // -1 absent
-	USizeField int64 `json:"usizeField"` // -1 absent
-	NFilters   int   `json:"nfilters"`
-	FilterID   int64 `json:"filterId"`
-	PropLen    int   `json:"propLen"`
-	DictCode   int   `json:"dictCode"`
-	HdrPadLen  int   `json:"hdrPadLen"`
-	HdrPadZero bool  `json:"hdrPadZero"`
-	HdrCrcOk   bool  `json:"hdrCrcOk"`
-	DataOff    int   `json:"dataOff"`
-	CSize      int   `json:"csize"` // measured
-	USize      int   `json:"usize"` // measured
-	PadLen     int   `json:"padLen"`
-	PadZero    bool  `json:"padZero"`
-	CheckOff   int   `json:"checkOff"`
-	CheckLen   int   `json:"checkLen"`
-	CheckOk    bool  `json:"checkOk"`
-	Unpadded   int64 `json:"unpadded"`
-	ContentOff int   `json:"contentOff"`
-	MaxDist    int64 `json:"maxDist"`
+	HdrOff     int      `json:"hdrOff"`
+	HdrLen     int      `json:"hdrLen"`
+	SizeByte   int      `json:"sizeByte"`
+	Flags      int      `json:"flags"`
+	CSizeField int64    `json:"csizeField"` // -1 absent
+	USizeField int64    `json:"usizeField"` // -1 absent
+	NFilters   int      `json:"nfilters"`
+	FilterID   int64    `json:"filterId"`
+	PropLen    int      `json:"propLen"`
+	DictCode   int      `json:"dictCode"`
+	HdrPadLen  int      `json:"hdrPadLen"`
+	HdrPadZero bool     `json:"hdrPadZero"`
+	HdrCrcOk   bool     `json:"hdrCrcOk"`
+	DataOff    int      `json:"dataOff"`
+	CSize      int      `json:"csize"` // measured
+	USize      int      `json:"usize"` // measured
+	PadLen     int      `json:"padLen"`
+	PadZero    bool     `json:"padZero"`
+	CheckOff   int      `json:"checkOff"`
+	CheckLen   int      `json:"checkLen"`
+	CheckOk    bool     `json:"checkOk"`
+	Unpadded   int64    `json:"unpadded"`
+	ContentOff int      `json:"contentOff"`
+	MaxDist    int64    `json:"maxDist"`
 	L2         L2Result `json:"-"`
 }
 
